@@ -676,9 +676,11 @@ class SymArr:
         return self._ew(o, mod)
 
     def __pow__(self, o):
+        _power_in_range(self, o)
         return self._ew(o, power)
 
     def __rpow__(self, o):
+        _power_in_range(o, self)
         return self._ew(o, power, swap=True)
 
     def __neg__(self):
@@ -895,6 +897,32 @@ def _divisor_nonzero(d, ref):
         c.oblige(nm, _numeric(d) != 0, kind="domain")
     elif d == 0:
         raise ZeroDivisionError("division by zero")
+
+
+def _power_in_range(base, exp):
+    """Eager obligation: every element of base**exp stays in the float64 range (see core.pow_in_range)."""
+    from . import spec as S
+    from .core import pow_in_range
+
+    c = ctx()
+    if c.in_spec or c.concrete or c.stub_mode:
+        return
+    if not isinstance(exp, (SymArr, SymNum)) and isinstance(exp, int) and -4 <= exp <= 8:
+        return
+    ops = tuple(o for o in (base, exp))
+    if not any(isinstance(o, SymArr) for o in ops):
+        return
+    try:
+        chk = elementwise(pow_in_range, ops, kind="b")
+    except Exception:
+        return
+    snap = chk.snapshot()
+    nm = "pow.result_stays_in_the_float64_range[%s]" % c.fresh_name("pw")
+    if chk.mask is not None:
+        mfn = chk.mask[1]
+        S.prove(nm, S.Forall(chk.shape, lambda *i: implies(mfn(*i), snap(*i))), kind="domain")
+    else:
+        S.prove(nm, S.Forall(chk.shape, lambda *i: snap(*i)), kind="domain")
 
 
 def mask_key(mask):
